@@ -460,6 +460,7 @@ def run_buffered(ctx, case, multi_handle):
         for regime in regimes:
             D = Docs(ctx, case["ndocs"], max(nh, 1), regime[0])
             brng = random.Random(case["bseed"])
+            lrng = random.Random(case["bseed"] + 1)
             stack = []
             used_in_block = {}
             problems = []
@@ -470,8 +471,20 @@ def run_buffered(ctx, case, multi_handle):
                 stack.append(cm)
 
             def leave():
+                # a block is left normally, by an ordinary exception, or by one that is not an Exception (Ctrl-C,
+                # sys.exit) and is handled further up: the block's writes are flushed all the same
                 cm = stack.pop()
-                cm.__exit__(None, None, None)
+                how = lrng.choice(["normal", "normal", "exception", "base"])
+                if how == "normal":
+                    cm.__exit__(None, None, None)
+                else:
+                    exc = ValueError("leave") if how == "exception" else KeyboardInterrupt("leave")
+                    ctx.count("buffered_block_left_by_" + how)
+                    try:
+                        cm.__exit__(type(exc), exc, None)
+                    except BaseException as e:  # noqa: a generator-based context manager re-raises what it was thrown
+                        if e is not exc:
+                            raise
                 if not stack:
                     used_in_block.clear()
 
